@@ -15,6 +15,7 @@ arithmetic is used.  The difference-logic flags are never set (not a feature the
   a quotient whose divisor contains one, or `pow`.
 -/
 import PySMT.Core.FreeVars
+import PySMT.Core.TypeOf
 import PySMT.Spec.LogicOrder
 namespace PySMT.Features
 open PySMT PySMT.Logics
@@ -169,5 +170,67 @@ open PySMT
 /-- `pow` does not occur (it has no SMT-LIB rank; pySMT's own typing of it is finding F05) -/
 def noPow : Term → Bool
   | .node op args _ => (op != .pow) && (args.map noPow).all id
+
+end PySMT.Features
+
+/-!
+## Difference logic
+
+Definition used (from the SMT-LIB descriptions of QF_IDL / QF_RDL, read up to reassociation of subtraction):
+a formula is in integer (real) difference logic when
+
+* every arithmetic *atom* over that sort -- `=`, `<=`, `<` between two terms of the sort -- is a difference
+  constraint: both sides are built from *variable-like* terms and numerals with binary `-` only, and after
+  cancelling equal terms on both sides at most one variable-like term remains with a positive and at most one
+  with a negative sign (`x - y ⋈ c`, `x ⋈ y`, `x ⋈ c`, `c ⋈ y`, and rearrangements such as `x - c ⋈ y`);
+* `+`, `*`, `/`, `pow`, `to_real` over that sort do not occur at all, and `-` occurs only inside the sides of
+  such atoms (not as a function argument, array index, ITE branch, …).
+
+A *variable-like* term is any term of the sort whose root is not one of those arithmetic operators (a symbol,
+an application, a select, an ITE, `str.len`, …).  SMT-LIB's QF_IDL proper is stricter (`x ⋈ c` is not an atom
+there); every formula the stricter reading accepts is accepted here.
+-/
+namespace PySMT.Features
+open PySMT
+
+def isArithOp : Op → Bool
+  | .plus | .minus | .times | .div | .pow | .toReal => true
+  | _ => false
+
+def isNumeral : Term → Bool
+  | .node .intConst _ _ | .node .realConst _ _ => true
+  | _ => false
+
+/-- the variable-like leaves of a side of an atom with their signs (`true` = positive); numerals vanish -/
+def signedLeaves : Term → Bool → List (Term × Bool)
+  | .node .minus [a, b] _, s => signedLeaves a s ++ signedLeaves b (!s)
+  | t, s => if isNumeral t then [] else [(t, s)]
+
+/-- at most one positive and one negative variable-like term survive cancellation -/
+def differenceConstraint (l r : Term) : Bool :=
+  let ls := signedLeaves l true ++ signedLeaves r false
+  let pos := (ls.filter (·.2)).map (·.1)
+  let neg := (ls.filter (fun x => !x.2)).map (·.1)
+  decide ((neg.foldl List.erase pos).length ≤ 1) && decide ((pos.foldl List.erase neg).length ≤ 1)
+
+/-- `dlOk k t inSide`: `t` obeys the discipline for sort `k`; `inSide` says that `t` is (a `-`-descendant of)
+a side of an arithmetic atom over `k` -/
+def dlOk (k : Ty) : Term → Bool → Bool
+  | .node op args p, inSide =>
+    let here := Term.node op args p
+    if isArithOp op && here.typeOf == some k then
+      -- an arithmetic operator over the sort: only `-`, only inside a side
+      op == .minus && inSide && (args.map (fun a => dlOk k a true)).all id
+    else if (op == .equals || op == .le || op == .lt) && (args.head?.bind Term.typeOf) == some k then
+      (match args with
+       | [l, r] => differenceConstraint l r
+       | _ => false) && (args.map (fun a => dlOk k a true)).all id
+    else
+      -- anything else: its children start afresh (a `-` directly below is not inside a side);
+      -- a variable-like term inside a side lands here too
+      (args.map (fun a => dlOk k a false)).all id
+
+/-- the formula is in difference logic over the sort `k` (`.int` or `.real`) -/
+def isDL (k : Ty) (t : Term) : Bool := dlOk k t false
 
 end PySMT.Features
